@@ -69,6 +69,10 @@ func (f *Dox) Call(s *slip.Scope, args slip.List, depth int) (result slip.Object
 		if ns.Eval(test, d2) != nil {
 			for _, rf := range rforms {
 				result = ns.Eval(rf, d2)
+				switch result.(type) {
+				case *slip.ReturnResult, *GoTo:
+					return result
+				}
 			}
 			break
 		}
